@@ -23,6 +23,7 @@ type recOutcome struct {
 	noop          bool // "old and new configurations match"
 	failed        bool // "error trying to update haproxy"
 	fullSync      bool
+	partial       bool
 	adminCmds     int
 	faults        int
 	wroteCfg      bool
@@ -30,6 +31,8 @@ type recOutcome struct {
 
 func (r *Run) logSink(prefix, args string) {
 	switch {
+	case strings.Contains(args, "syncing ") && strings.Contains(args, " host(s) and "):
+		r.cur.partial = true // only syncPartial logs this
 	case strings.Contains(args, "haproxy reload enqueued"):
 		r.cur.reloadEnq = true
 		r.reloadPending = true
@@ -228,7 +231,12 @@ func (r *Run) afterReconcile(informersLagging bool) {
 	if or.Loadable && r.cur.wroteCfg && r.cur.faults == 0 && !r.cur.failed {
 		r.checkLoadable()
 	}
-	if or.FreshEveryRec && !r.cur.failed && !informersLagging && !r.kube.Pending() {
+	if !r.cur.partial {
+		r.kube.fullEventPending = false // this one was a full sync
+	}
+	// a partial sync that took a batch holding IngressClass/Gateway events is followed by the
+	// full sync those events enqueued (rparam{fullsync:true}); the files are compared after it
+	if or.FreshEveryRec && !r.cur.failed && !informersLagging && !r.kube.Pending() && !r.kube.fullEventPending {
 		r.checkFresh("C05", "every-update")
 	}
 	if or.EffectiveStep && !r.cur.failed && !r.reloadPending && r.ha.Loaded != nil && !r.cur.reloadedSync {
